@@ -735,3 +735,130 @@ func tlsTicketIdentityUnit() harness.Unit {
 		}
 	}}
 }
+
+// ---- TLS 1.2 ECDHE with the reference peer --------------------------------------------------------
+
+func ecdheServerCases(rsaCert bool) []refCase {
+	pk := tlsk.Get()
+	zero := make([]byte, 32)
+	ske := func(f func(p *gmref.Peer) []byte) func(int, []gmref.Item) []gmref.Item {
+		return replace("ServerKeyExchange", func(p *gmref.Peer) []byte { return gmref.HS(gmref.HSServerKX, f(p)) })
+	}
+	build := func(p *gmref.Peer, cr, sr, signedParams, sentParams []byte, hashByte byte) []byte {
+		alg, sig := gmref.SignECDHE(p, cr, sr, signedParams)
+		b := append(append([]byte{}, sentParams...), hashByte, alg)
+		return append(b, gmref.SKEBody(sig)...)
+	}
+	params := func(p *gmref.Peer) []byte { p.GenerateECDH(); return gmref.ECDHEParams(p.ECDHOwn) }
+	var otherKey interface{} = pk.StdClient.PrivateKey
+	if rsaCert {
+		otherKey = pk.ECDSAKey
+	}
+	cs := []refCase{
+		{name: "control: genuine identity", conformant: true},
+		{name: "ServerKeyExchange omitted", mutate: omit("ServerKeyExchange")},
+		{name: "ServerKeyExchange signed with a key of the other type", ident: func(id *gmref.Identity) { id.TLSKey = otherKey }},
+		{name: "ServerKeyExchange signature over server_random||client_random", mutate: ske(func(p *gmref.Peer) []byte { return build(p, p.SR, p.CR, params(p), params(p), 4) })},
+		{name: "ServerKeyExchange signature from another session (other randoms)", mutate: ske(func(p *gmref.Peer) []byte { return build(p, zero, zero, params(p), params(p), 4) })},
+		{name: "ServerKeyExchange signature over another ephemeral point than the one sent", mutate: ske(func(p *gmref.Peer) []byte {
+			sent := params(p)
+			other := append([]byte{}, sent...)
+			other[len(other)-1] ^= 1
+			return build(p, p.CR, p.SR, other, sent, 4)
+		})},
+		{name: "ServerKeyExchange announcing SHA-1 for a SHA-256 signature", mutate: ske(func(p *gmref.Peer) []byte { return build(p, p.CR, p.SR, params(p), params(p), 2) })},
+		{name: "ServerKeyExchange with an empty signature", mutate: ske(func(p *gmref.Peer) []byte {
+			return append(append(params(p), 4, 1), 0, 0)
+		})},
+		{name: "ServerKeyExchange without signature fields", mutate: ske(func(p *gmref.Peer) []byte { return params(p) })},
+		{name: "ephemeral point not on the curve (y+1), correctly signed", malformedOnly: false, mutate: ske(func(p *gmref.Peer) []byte {
+			pr := params(p)
+			pr[len(pr)-1] ^= 1
+			return build(p, p.CR, p.SR, pr, pr, 4)
+		})},
+		{name: "ephemeral point all zero coordinates, correctly signed", mutate: ske(func(p *gmref.Peer) []byte {
+			pr := gmref.ECDHEParams(append([]byte{4}, make([]byte, 64)...))
+			return build(p, p.CR, p.SR, pr, pr, 4)
+		})},
+		{name: "ephemeral point 'infinity' (one zero byte), correctly signed", mutate: ske(func(p *gmref.Peer) []byte {
+			pr := gmref.ECDHEParams([]byte{0})
+			return build(p, p.CR, p.SR, pr, pr, 4)
+		})},
+		{name: "ephemeral point in compressed form, correctly signed", mutate: ske(func(p *gmref.Peer) []byte {
+			pt := params(p)[4:]
+			c := append([]byte{2 + pt[64]&1}, pt[1:33]...)
+			pr := gmref.ECDHEParams(c)
+			return build(p, p.CR, p.SR, pr, pr, 4)
+		})},
+		{name: "a P-256 point announced as secp521r1, correctly signed", mutate: ske(func(p *gmref.Peer) []byte {
+			pr := params(p)
+			pr[2] = 25
+			return build(p, p.CR, p.SR, pr, pr, 4)
+		})},
+		{name: "explicit-curve parameter type, correctly signed", mutate: ske(func(p *gmref.Peer) []byte {
+			pr := params(p)
+			pr[0] = 1
+			return build(p, p.CR, p.SR, pr, pr, 4)
+		})},
+	}
+	return append(cs, finishedCases(false)...)
+}
+
+func ecdheClientCases() []refCase {
+	ckx := func(f func(p *gmref.Peer) []byte) func(int, []gmref.Item) []gmref.Item {
+		return replace("ClientKeyExchange", func(p *gmref.Peer) []byte {
+			honest := gmref.TLS12ECDHE.BuildCKX(p, nil) // sets the shared secret for the genuine point
+			return gmref.HS(gmref.HSClientKX, f2(f(p), honest))
+		})
+	}
+	pt := func(p *gmref.Peer) []byte { p.GenerateECDH(); return append([]byte{}, p.ECDHOwn...) }
+	wrap := func(b []byte) []byte { return append([]byte{byte(len(b))}, b...) }
+	cs := []refCase{
+		{name: "control: genuine client key share", conformant: true, accept: all(true)},
+		{name: "client point not on the curve (y+1)", mutate: ckx(func(p *gmref.Peer) []byte { b := pt(p); b[64] ^= 1; return wrap(b) })},
+		{name: "client point with all-zero coordinates", mutate: ckx(func(p *gmref.Peer) []byte { return wrap(append([]byte{4}, make([]byte, 64)...)) })},
+		{name: "client point 'infinity' (one zero byte)", mutate: ckx(func(p *gmref.Peer) []byte { return wrap([]byte{0}) })},
+		{name: "client point in compressed form", mutate: ckx(func(p *gmref.Peer) []byte { b := pt(p); return wrap(append([]byte{2 + b[64]&1}, b[1:33]...)) })},
+		{name: "client point truncated by one byte", mutate: ckx(func(p *gmref.Peer) []byte { b := pt(p); return wrap(b[:64]) })},
+		{name: "client point with one extra byte", mutate: ckx(func(p *gmref.Peer) []byte { return wrap(append(pt(p), 0)) })},
+		{name: "client point whose length byte claims one byte more", mutate: ckx(func(p *gmref.Peer) []byte { b := wrap(pt(p)); b[0]++; return b })},
+		{name: "empty ClientKeyExchange", mutate: ckx(func(p *gmref.Peer) []byte { return []byte{} })},
+		{name: "x coordinate equal to the field prime (not reduced)", mutate: ckx(func(p *gmref.Peer) []byte {
+			b := pt(p)
+			copy(b[1:33], []byte{0xff, 0xff, 0xff, 0xff, 0, 0, 0, 1, 0, 0, 0, 0, 0, 0, 0, 0, 0, 0, 0, 0, 0xff, 0xff, 0xff, 0xff, 0xff, 0xff, 0xff, 0xff, 0xff, 0xff, 0xff, 0xff})
+			return wrap(b)
+		})},
+	}
+	return append(cs, finishedCases(true)...)
+}
+
+// f2 returns a (the crafted body); b is evaluated only for its side effect.
+func f2(a, b []byte) []byte { return a }
+
+func ecdheUnit(suite uint16, libIsClient bool) harness.Unit {
+	return harness.Unit{Name: fmt.Sprintf("tls12-ecdhe-scripted-peer/%04x/library-client=%v", suite, libIsClient), Run: func(c *harness.Ctx) {
+		p := tlsk.Get()
+		cert, key := p.RSA, interface{}(p.RSAKey)
+		if suite == gmref.SuiteECDHEECDSAGCM {
+			cert, key = p.ECDSA, interface{}(p.ECDSAKey)
+		}
+		setup := func(q *gmref.Peer) { q.UseECDHE(); q.Suites = []uint16{suite} }
+		if libIsClient {
+			for i, rc := range ecdheServerCases(suite == gmref.SuiteECDHERSAGCM) {
+				id := gmref.Identity{Certs: [][]byte{cert.Certificate[0]}, TLSKey: key}
+				if rc.ident != nil {
+					rc.ident(&id)
+				}
+				cc := &gmtls.Config{RootCAs: p.StdRootsG, ServerName: tlsk.ServerName, Time: tlsk.FixedTime, Rand: wire.NewRand(38), CipherSuites: []uint16{suite}, MinVersion: 0x0303, MaxVersion: 0x0303}
+				o := tlsk.RunLibVsRef(cc, true, tlsk.LibApp(true), id, byte(160+i), setup, &gmref.Script{Data: tlsk.PingPong(false), Mutate: rc.mutate}, nil)
+				judgeRefCase(c, fmt.Sprintf("TLS 1.2 ECDHE suite=%04x scripted server: %s", suite, rc.name), fmt.Sprintf("ecdhe-scripted-server:%04x:%s", suite, rc.name), o, rc.conformant, false)
+			}
+			return
+		}
+		for i, rc := range ecdheClientCases() {
+			sc := &gmtls.Config{Certificates: []gmtls.Certificate{cert}, Time: tlsk.FixedTime, Rand: wire.NewRand(39), CipherSuites: []uint16{suite}, MinVersion: 0x0303, MaxVersion: 0x0303}
+			o := tlsk.RunLibVsRef(sc, false, tlsk.LibApp(false), gmref.Identity{}, byte(180+i), setup, &gmref.Script{Data: tlsk.PingPong(true), Mutate: rc.mutate}, nil)
+			judgeRefCase(c, fmt.Sprintf("TLS 1.2 ECDHE suite=%04x scripted client: %s", suite, rc.name), fmt.Sprintf("ecdhe-scripted-client:%04x:%s", suite, rc.name), o, rc.conformant, false)
+		}
+	}}
+}
